@@ -98,6 +98,26 @@ CHECKS["C14"] = dict(
     note="Trusted base: TLC 1.8, CommunityModules Json, the harness; integer price grid; forward-moving clock over the "
          "chain's last-trading instants; bounded depth.")
 
+CHECKS["C19"] = dict(
+    text="Exhaustive over the whole input domain: TLC computes expiry, cut-off and symbol of every (class, year, month) for the 8 "
+         "built-in classes and years 1970..2099 from independent civil-date arithmetic (Calendar.tla) and checks ExpiryRule (the "
+         "rule restated without the construction), CutoffBeforeExpiry, ChainOrdered and SymbolRule on all 12 480 rows; every row is "
+         "compared with the real Future(year, month) (expiry, symbol, last trading date < expiry, one discontinuation event at the "
+         "expiry) and chains over many spans are checked for order, symbol uniqueness, membership and events.",
+    design="5 C19", technique="TLA+ calendar specification enumerated exhaustively by TLC; full table compared with the "
+                              "implementation", note="Trusted base: TLC, the harness, python datetime for converting day numbers; "
+                              "which months a chain lists for a span is taken from the code (pandas date_range).")
+CHECKS["C06"] = dict(
+    text="Interest.tla keeps the compounding exponent symbolically (seconds compounded into the balance): TLC explores every way of "
+         "cutting intervals from 1 s to 30 y with queries, accruals, no-trade rebalances and earlier times interleaved, for 5 "
+         "(rate, markup) regimes and balances of both signs and two magnitudes, checking SplitInvariant, ClockStartsAtFirstCall and "
+         "the action properties QueryPure, NoDoubleAccrual, RejectEarlier; every behaviour is replayed into a real Broker and each "
+         "returned amount and balance is compared with the closed form evaluated with 50-digit decimals. A second model "
+         "(Broker.tla, whole years, exact rationals) has a margined position open: posted margin earns nothing.",
+    design="5 C06", technique="TLA+ spec with symbolic exponents model-checked with TLC; every behaviour replayed into the real "
+                              "Broker, closed form evaluated in 50-digit decimal", note="Constant rate per behaviour; 1e-9 relative "
+                              "tolerance; pow() itself is trusted beyond that.")
+
 PENDING = "check not built yet in this round (the TLA+ model for it is planned in DESIGN.md section 5); listed here until its check is registered"
 
 
